@@ -199,6 +199,19 @@ void array(const tok& t, GetArr get)
         std::vector<V> v(static_cast<std::size_t>(t.b), static_cast<V>(0x5a));
         sink(reinterpret_cast<std::uintptr_t>(a.assign_range(v)));
     }
+    else if(t.op == "D")
+    {
+        sink(reinterpret_cast<std::uintptr_t>(a.raw().data()));
+    }
+    else if(t.op == "E")
+    {
+        sink(static_cast<unsigned char>(a.raw()[static_cast<std::size_t>(t.b)]));
+    }
+    else if(t.op == "W")
+    {
+        using RV = typename decltype(a.raw())::value_type;
+        a.raw()[static_cast<std::size_t>(t.b)] = static_cast<RV>(0x5a);
+    }
     else
     {
         throw bad_path{};
@@ -234,6 +247,19 @@ void data_ops(D d, const path& p, std::size_t i)
     else if(t.k == "w")
     {
         d[static_cast<S>(t.a)] = static_cast<V>(0x5a);
+    }
+    else if(t.k == "rn")
+    {
+        sink(d.raw().size());
+    }
+    else if(t.k == "re")
+    {
+        sink(static_cast<unsigned char>(d.raw()[static_cast<S>(t.a)]));
+    }
+    else if(t.k == "rw")
+    {
+        using RV = typename decltype(d.raw())::value_type;
+        d.raw()[static_cast<S>(t.a)] = static_cast<RV>(0x5a);
     }
     else if(t.k == "r")
     {
